@@ -197,6 +197,13 @@ package httpscenario
 //@ ensures [no-http2-over-plain-tcp] iff(result1 != nil, !conf.SSL) && imp(result1 != nil, result0 == nil && calls(newScenarioGun) == 0)
 //@ at call newScenarioGun assert arg(cfg) == conf && arg(answLog) == answLog0
 
+// Each gun type is registered with its own default configuration (the HTTP/2 defaults switch SSL on).
+//@ func Import
+//@ props C09 C17 C18
+//@ may_panic true
+//@ at call register.Gun#0 assert [http-scenario-gun-gets-the-http-defaults] arg(name) == "http/scenario" && len(arg(defaultConfigOptional)) == 1 && arg(defaultConfigOptional)[0] == box(phttp.DefaultHTTPGunConfig)
+//@ at call register.Gun#1 assert [http2-scenario-gun-gets-the-http2-defaults] arg(name) == "http2/scenario" && len(arg(defaultConfigOptional)) == 1 && arg(defaultConfigOptional)[0] == box(phttp.DefaultHTTP2GunConfig)
+
 //@ func Import#lit0
 //@ props C09
 //@ at call phttp.PreResolveTargetAddr assert [the-configured-target] arg(target) == conf.Target
